@@ -27,7 +27,7 @@ RULE = ("fn 1 (String): all 741 (precision, scale) pairs with 0 <= scale <= prec
         "assignments leave the valid range), length 4 from the first (from all six thorough); the call-site flows 'set value, [format|read], "
         "assign Precision/Scale, format' into every (precision, scale) pair; 2 (40 thorough) random histories per pair whose values and texts are "
         "drawn for the precision/scale the object has at that moment, with occasional out-of-range assignments (precision up to 41, scale -1..40). "
-        "Non-trivial = everything except fn 3 (each fn 3 case is a distinct point of the construction domain and is counted too); distinct by (fn, input).")
+        "Non-trivial = everything except fn 3 (each fn 3 case is a distinct point of the construction domain and is counted too); distinct by (fn, input). fn 6 (wire leg): values around every machine-word boundary of the magnitude (2^7 .. 2^127, 10^19), powers of ten and random values are encoded as DECN / NUMN (asetypes/bytes.go), decoded again (asetypes/goValue.go), given their precision and scale as tds field data does, and must then print and round-trip as in fn 1.")
 TRUSTED = ["Coq 8.16.1 kernel + vm_compute (no native_compute)",
            "hand-written model coq/theories/C16/Model.v of asetypes/decimal.go (tied by this correspondence check)",
            "math/big (Int.String, Int.SetString base 10, Abs, Exp, Mul, SetBytes, Neg, Bytes), fmt (%0<w>s of a *big.Int through big.Int.Format, %s) and "
